@@ -168,6 +168,42 @@ fn judge(mode: Mode, prop: &str, form: &str, fam: &str, fclass: &str, is_control
     }
 }
 
+/// C17, "the object API returns only an error" / "nothing derived from the rejected ciphertext":
+/// the text an error carries may depend on which check failed and on lengths, but not on the
+/// rejected bytes. Within one base case every failed open of one form under one fault class and
+/// one submitted length must therefore produce the same Display/Debug text.
+#[derive(Default)]
+struct ErrTexts(std::collections::HashMap<(String, String, usize, usize), (String, Fault)>);
+impl ErrTexts {
+    fn check(&mut self, mode: Mode, prop: &str, fam: &str, form: &str, fclass: &str, wlen: usize, outlen: usize, fault: Fault, out: &OpenOut) -> Option<(String, String, Fault)> {
+        let text = take_last_err();
+        if mode != Mode::Leak || out.v != Verdict::Err {
+            return None;
+        }
+        let text = text?;
+        match self.0.entry((form.to_string(), fclass.to_string(), wlen, outlen)) {
+            std::collections::hash_map::Entry::Vacant(v) => {
+                v.insert((text, fault));
+                None
+            }
+            std::collections::hash_map::Entry::Occupied(o) => {
+                if o.get().0 == text {
+                    None
+                } else {
+                    Some((format!("{}/{}/{}/error-text-depends-on-input", prop, fam, form), format!("two rejected inputs of the same length and fault class ({}: {:?} and {:?}) produce different error texts: '{}' vs '{}'", fclass, o.get().1, fault, short_text(&o.get().0), short_text(&text)), o.get().1))
+                }
+            }
+        }
+    }
+}
+fn short_text(s: &str) -> String {
+    if s.len() > 160 {
+        format!("{}...", &s[..160])
+    } else {
+        s.to_string()
+    }
+}
+
 /// caller-chosen buffer sizes: the message buffer handed to a classic copying form (or the
 /// classic stream pull) is not sized from the submitted ciphertext. Only what the statement
 /// fixes is demanded: a tampered input never yields Ok, an accepted control yields the
@@ -298,7 +334,10 @@ fn stream_open(form: usize, s: &StreamIn) -> OpenOut {
                 out.push(tag);
                 Verdict::Ok(out)
             }
-            Ok(Err(_)) => Verdict::Err,
+            Ok(Err(e)) => {
+                note_err(&e);
+                Verdict::Err
+            }
         };
         let mut after = m;
         after.push(tag);
@@ -315,7 +354,10 @@ fn stream_open(form: usize, s: &StreamIn) -> OpenOut {
                 out.push(t.bits());
                 Verdict::Ok(out)
             }
-            Ok(Err(_)) => Verdict::Err,
+            Ok(Err(e)) => {
+                note_err(&e);
+                Verdict::Err
+            }
         };
         OpenOut { v, before: vec![], after: vec![] }
     }
@@ -332,6 +374,29 @@ pub fn replay(case: &Value) -> Option<String> {
     let mode = if case["mode"] == "leak" { Mode::Leak } else { Mode::Tamper };
     let prop = if mode == Mode::Leak { "C17" } else { "C02" };
     let fault: Fault = serde_json::from_value(case["fault"].clone()).unwrap();
+    if !case["fault0"].is_null() {
+        // error-text oracle: the two faults must yield the same error text
+        let fault0: Fault = serde_json::from_value(case["fault0"].clone()).unwrap();
+        let text = |f: &Fault| -> Option<String> {
+            let _ = take_last_err();
+            if case["family"] == "stream" {
+                let b = stream_base(case["seed"].as_u64().unwrap(), case["ki"].as_u64().unwrap() as usize, case["mlen"].as_u64().unwrap() as usize, case["adlen"].as_u64().map(|x| x as usize), case["tag"].as_u64().unwrap() as u8);
+                let s = apply_stream(f, &b)?;
+                let form = STREAM_FORMS.iter().position(|x| *x == case["form"].as_str().unwrap()).unwrap();
+                let _ = stream_open(form, &s);
+            } else {
+                let ks = Keys::from_json(&case["keys"]);
+                let m = unhx(&case["msg"]);
+                let o = open_by_name(case["form"].as_str().unwrap()).unwrap();
+                let wire = ref_wire(o.1, &ks, &m);
+                let (k2, w2) = apply_aead(f, &ks, &wire);
+                let _ = (o.2)(&k2, &w2, SENTINEL);
+            }
+            take_last_err()
+        };
+        let (a, b) = (text(&fault0), text(&fault));
+        return if a.is_some() && b.is_some() && a != b { Some(format!("error-text-depends-on-input: '{}' vs '{}'", short_text(&a.unwrap()), short_text(&b.unwrap()))) } else { None };
+    }
     if let Some(n) = case["outlen"].as_u64() {
         let n = n as usize;
         if case["family"] == "stream" {
@@ -404,6 +469,7 @@ pub fn run(mode: Mode) -> i32 {
         let m = cval(seed, 2 + (len % 2), len);
         let wire = ref_wire(fam, &ks, &m);
         let forms: Vec<_> = open_all().iter().filter(|o| o.1 == fam).collect();
+        let mut et = ErrTexts::default();
         for fault in aead_faults(fam, wire.len()) {
             let (k2, w2) = apply_aead(&fault, &ks, &wire);
             let fclass = fault_class(&fault, overhead(fam), wire.len());
@@ -442,6 +508,9 @@ pub fn run(mode: Mode) -> i32 {
                 let out = (o.2)(&k2, &w2, SENTINEL);
                 let (oc, f) = judge(mode, prop, o.0, fam_name(fam), fclass, fault == Fault::None, &out, &m, sodium_ok);
                 st.eval(&(fi, ki, len, fault, o.0), out.v != Verdict::NA, &oc);
+                if let Some((sig, what, f0)) = et.check(mode, prop, fam_name(fam), o.0, fclass, w2.len(), 0, fault, &out) {
+                    st.fail(Fail { check: "C02.fault".into(), signature: sig, what: format!("{} on {} message of {} bytes: {}", o.0, fam_name(fam), len, what), case: json!({"mode": modestr, "family": fam_name(fam), "form": o.0, "keys": ks.json(), "msg": hx(&m), "fault": fault, "fault0": f0}) });
+                }
                 if let Some((sig, what)) = f {
                     st.fail(Fail {
                         check: "C02.fault".into(),
@@ -471,6 +540,7 @@ pub fn run(mode: Mode) -> i32 {
         let b = stream_base(seed, ki, mlen, adlens[ai], tag as u8);
         let mut want = b.msg.clone();
         want.push(b.tag);
+        let mut et = ErrTexts::default();
         for fault in stream_faults(&b) {
             let Some(s) = apply_stream(&fault, &b) else { continue };
             let fclass = fault_class(&fault, 1, b.wire.len());
@@ -479,6 +549,9 @@ pub fn run(mode: Mode) -> i32 {
                 let out = stream_open(form, &s);
                 let (oc, f) = judge(mode, prop, STREAM_FORMS[form], "stream", fclass, fault == Fault::None, &out, &want, sodium_ok);
                 st.eval(&(mlen, ai, fault, form), true, &oc);
+                if let Some((sig, what, f0)) = et.check(mode, prop, "stream", STREAM_FORMS[form], fclass, s.wire.len(), 0, fault, &out) {
+                    st.fail(Fail { check: "C02.fault".into(), signature: sig, what: format!("{} on stream message of {} bytes (ad {:?}): {}", STREAM_FORMS[form], mlen, adlens[ai], what), case: json!({"mode": modestr, "family": "stream", "form": STREAM_FORMS[form], "seed": seed, "ki": ki, "mlen": mlen, "adlen": adlens[ai], "tag": tag, "fault": fault, "fault0": f0}) });
+                }
                 if let Some((sig, what)) = f {
                     st.fail(Fail {
                         check: "C02.fault".into(),
@@ -594,6 +667,42 @@ pub fn run(mode: Mode) -> i32 {
     });
     ctx.note("long_message_lengths", json!(long_lens));
     ctx.absorb("long-messages", st);
+    // authentication tags handed over in run-time-sized containers of the wrong length (object
+    // API with Vec tags): every proper prefix of the genuine tag
+    if mode == Mode::Tamper {
+        use dryoc::dryocbox::DryocBox;
+        use dryoc::dryocsecretbox::DryocSecretBox;
+        let mut st = Stats::new();
+        for len in [0usize, 1, 16, 17, 100] {
+            let ks = Keys::make(seed, 3, 1);
+            let m = cval(seed, 2, len);
+            for fam in [Fam::Sb, Fam::Bx] {
+                let wire = ref_wire(fam, &ks, &m);
+                // (containers longer than the tag are outside the statement: dryoc's ByteArray<N> for
+                // Vec means "at least N bytes, the first N are used")
+                let tags: Vec<Vec<u8>> = (0..16).map(|n| wire[..n].to_vec()).collect();
+                for t in tags {
+                    let (tl, body, k2) = (t.len(), wire[16..].to_vec(), ks.clone());
+                    let r = guarded(AssertUnwindSafe(move || match fam {
+                        Fam::Sb => {
+                            let b: DryocSecretBox<Vec<u8>, Vec<u8>> = DryocSecretBox::from_parts(t, body);
+                            b.decrypt::<Vec<u8>, _, _>(&k2.n, &k2.k).is_ok()
+                        }
+                        _ => {
+                            let b: DryocBox<Vec<u8>, Vec<u8>, Vec<u8>> = DryocBox::from_parts(t, body, None);
+                            b.decrypt::<_, _, _, Vec<u8>>(&k2.n.to_vec(), &k2.pk_a.to_vec(), &k2.sk_b.to_vec()).is_ok()
+                        }
+                    }));
+                    let accepted = r == Ok(true);
+                    st.eval(&("wrong-length-tag", fam_name(fam), len, tl), true, if accepted { "tamper-accepted" } else { "tamper-rejected" });
+                    if accepted {
+                        st.fail(Fail { check: "C02.fault".into(), signature: format!("C02/{}/object-from_parts/accepted/wrong-length-tag", fam_name(fam)), what: format!("{} object built from a {}-byte tag container (message {} bytes) decrypted successfully", fam_name(fam), tl, len), case: json!({"mode": modestr, "family": "note", "note": "deterministic: re-run bin/check C02"}) });
+                    }
+                }
+            }
+        }
+        ctx.absorb("wrong-length-tags", st);
+    }
     // caller-chosen buffer sizes (classic copying forms and the classic stream pull)
     let bs_max = ctx.tier.pick(48usize, 130);
     let mut units: Vec<(usize, usize)> = vec![];
